@@ -33,7 +33,7 @@ pub fn c07_configs(thorough: bool) -> Vec<EpCfg> {
                 c.auto_pub = auto;
                 c.window = 1;
                 c.alph = Alph {
-                    peer_pub_q: vec![2],
+                    peer_pub_q: vec![1, 2],
                     peer_ids: vec![1, 2],
                     peer_dup: true,
                     peer_acks: vec![AckKind::Pubrel],
